@@ -121,6 +121,7 @@ type Obligation struct {
 	Decls   []Decl  // snapshot of declarations
 	Hyps    []*Term // snapshot
 	Bounded string
+	Expected *Term // for ensures of the shape [A ==>] result == E: the term E (replay compares against it)
 }
 
 func newCtx(prog *Program, specs *SpecSet, mode Mode) *Ctx {
